@@ -259,3 +259,8 @@ for (nq, nt, nr, tier) in [(1, 1, 1, 'quick'), (1, 2, 2, 'quick'), (2, 2, 2, 'qu
                   "BestFitVoting::winners = oracle (each track to its heaviest claimant, others fall back to themselves), for every HashMap iteration order",
                   "%d queries x %d tracks, stream of %d results (ids chosen by z3), distances on the exact grid or None, min_votes <= 3, max_distance free" % (nq, nt, nr),
                   [BF], replay=_replay, opts={'map_order': 'nondet'}, max_paths=400000, timeout=3300, z3_timeout_ms=60000))
+
+# Hungarian voting (SortVoting): "for every query that appears in the stream, either one track or the query itself, and no
+# track twice" - the same assignment obligations that C02 registers
+import C02 as _c02
+MIR += [q for q in _c02.MIR if q.name.startswith('c02_assign_') and q.name in ('c02_assign_c1_t1_r1', 'c02_assign_c1_t2_r2', 'c02_assign_c2_t1_r2', 'c02_assign_c2_t2_r2')]
